@@ -582,9 +582,9 @@ def _grid_starts():
     days = [(1900, 1, 1), (1900, 2, 28), (1900, 3, 1), (1999, 12, 31), (2000, 1, 1), (2000, 2, 29), (2000, 12, 31), (2004, 2, 29),
             (2023, 1, 31), (2023, 3, 31), (2023, 5, 31), (2023, 8, 31), (2023, 10, 29), (2024, 1, 30), (2024, 12, 31), (2100, 2, 28),
             (2199, 12, 30), (2299, 12, 31)] + [(2022, 10, d) for d in range(17, 24)]      # Monday .. Sunday
-    tods = [[36000, 0], [86399, 999999], [1, 0], [43200, 500000]]
+    tods = [[36000, 0], [86399, 999999], [1, 0], [43200, 500000], [0, 1]]     # incl. the last microsecond of the day and 1 microsecond past midnight
     out = [[datetime.date(*d).toordinal(), 0, 0] for d in days]
-    out += [[datetime.date(*d).toordinal()] + tods[i % 4] for i, d in enumerate(days)]
+    out += [[datetime.date(*d).toordinal()] + tods[i % 5] for i, d in enumerate(days)]
     return out
 
 
